@@ -45,6 +45,16 @@ CHECKS = {
          "Seeded search over edit histories (1-5 files of a cross-referencing project family with duplicates, dangling references, syntax errors, empty files; structural edits, break/repair, swaps, moves, whitespace-only edits, removes, re-adds, queries in any order, salsa cancellation between operations) against the real trust_hir::Database and Project: after every operation every query answer (diagnostics, analyze, file_symbols, type_of at every expression, expr_id_at_offset at every token, source text, name resolution, file ids) of every live file must equal the answer of a brand-new database loaded with the current texts under the same FileIds, repeated queries must repeat, removed files must answer like unknown ones, nothing may panic. An eager twin sweeps all queries after every op, a lazy twin only answers the history's own queries (so the history decides what was memoised before which edit). Sampling, not proof.",
          "Trusts a fresh Database (same code, cold path) as the reference for 'from-scratch analysis' and ascending-FileId load order. Concurrent readers are not explored (salsa's internals are outside the simulator).",
          "DESIGN.md section 5 C13"),
+ "C17": ("exploration",
+         "deterministic simulation of threads: the real DebugControl hook (Mutex+Condvar) with a cycle thread and a controller thread under a shuttle-backed scheduler the simulator owns (seeded random and PCT-like schedules, replayable from the case); command scripts racing with execution; undebugged twin trace as oracle",
+         "Seeded search over schedules x command scripts (breakpoints incl. conditional/hit-count/logpoints, pause, pause(thread), continue, step in/over/out, racing or awaited) x a corpus of six program templates (call ladders, nested loops, FB-in-FB and methods, three tasks + background): the debugged statement trace (H5b probe) must stay a prefix of the command-free twin's trace and end equal to it, with equal cycle results and final state; every time the cycle thread is parked exactly one stop notification with the parked location exists (no silent stop, no double stop); every resume from a parked state executes a statement, the final clear+continue lets the thread finish (shuttle deadlock or step bound = wedged); step-in stops at the next statement of the task, step-over/out never stop deeper than their origin. Sampling, not proof.",
+         "Trusts the sync shim (std Mutex/Condvar/mpsc/thread semantics modelled over shuttle incl. timed waits as release-yield-reacquire) and the statement-trace probe. The DAP adapter's StopCoordinator and real OS threads are not run.",
+         "DESIGN.md section 4 C17"),
+ "C20": ("exploration",
+         "deterministic simulation of threads: real ResourceRunner threads, ManualClock, StartGate, SharedGlobals and command channels under a shuttle-backed scheduler the simulator owns; seeded schedules x controller scripts (advance, pause/resume, stop, gates, faults)",
+         "Seeded search over schedules x controller scripts for 2-4 resources spawned with the real spawn_with_shared over shared configuration globals: at quiescence shared = a = sum of per-resource counters and the in-program torn-pair detector stayed 0 (no lost update, no half-updated set); once Paused is established no cycle starts until Resume; stop-while-paused / -gated / racing a command always lets join() return with state Stopped (shuttle deadlock or step bound = wedged) and stores the final retained values exactly once; after a fault in one resource the others still cycle and answer commands. Sampling, not proof.",
+         "Trusts the sync shim (see C17) and that faults placed at cycle start are the right place to judge shared-set consistency (a mid-cycle fault publishes a partial cycle by design of sync_from). StdClock/ScaledClock (real sleeps) are not run.",
+         "DESIGN.md section 4 C20"),
  "C18": ("exploration",
          "deterministic simulation: nine simulated clients with every credential kind against the real control dispatcher (in-process, hook H7); seeded request histories with clock jumps, token rotation/expiry/revocation, garbled lines; independent required-role table + before/after effect probe",
          "Seeded search over request histories (all 53 dispatcher request types with valid and invalid params, unknown/case-variant/garbled/truncated/duplicated/oversized lines, pair.start/claim/revoke, auth-token rotation and removal, debug and mode flips, simulated-clock jumps around token expiry) from nine clients (none, wrong token, admin token, pairing tokens at each role, expired, revoked, previous admin token) against one real ControlState: an observed effect (11-component state probe + resource command log) requires role(credential) >= required(type) by a table written from the property; with a token configured an invalid credential causes no effect and gets an error-only reply without runtime data; every type that ever shows an effect must require more than viewer; debug-class requests are refused and effect-free while debug is off; every line gets exactly one well-formed reply; no panic, no hang. Sampling, not proof.",
